@@ -109,7 +109,11 @@ def gen_sieve_case(rng: random.Random, tier: str) -> dict:
         cmd['spelling'] = rng.choice(['auto', 'quoted', 'literal'])
         cmds.append(cmd)
     cmds.append({'kind': 'verify', 'conn': 0})
-    return {'config': cfg, 'steps': cmds}
+    case = {'config': cfg, 'steps': cmds}
+    if rng.random() < 0.35:
+        # everything the clients send arrives in small pieces
+        case['chunk_seed'] = rng.getrandbits(32)
+    return case
 
 
 def pre_auth_case(a: str, b_: str | None) -> dict:
@@ -150,6 +154,8 @@ def run_sieve(case: dict, trace: bool = False) -> dict:
         cl = conns.get(i)
         if cl is None or cl.conn.done:
             cl = SieveClient(world, i)
+            if case.get('chunk_seed') is not None:
+                cl.chunk_rng = random.Random(case['chunk_seed'] + i)
             conns[i] = cl
             who[i] = None
             world.run(0.5, None, [])
